@@ -562,6 +562,17 @@ class Interp:
                 for v in test.values:
                     self.refine(v, st, False)
             return
+        if isinstance(test, ast.Call) and isinstance(test.func, ast.Name) and test.func.id == "isinstance" \
+                and len(test.args) == 2 and isinstance(test.args[0], ast.Name) and test.args[0].id in st.env \
+                and isinstance(test.args[1], ast.Name) and test.args[1].id == "str":
+            v = st.env[test.args[0].id]
+            if truth:
+                st.env[test.args[0].id] = v.copy(kinds=["str"])
+            else:
+                # not a string: no text can flow on through this value
+                rest = v.kinds - {"str"}
+                st.env[test.args[0].id] = AV(kinds=rest or ["top"], regions=v.regions, const=None)
+            return
         if isinstance(test, ast.Name) and test.id in st.env and not truth:
             v = st.env[test.id]
             if "none" in v.kinds and len(v.kinds) > 1:
